@@ -994,7 +994,8 @@ class Watcher(object):
 
         # If not self.processes, the before_spawn or after_spawn hooks have
         # probably prevented startup so give up
-        if not self.processes or not self.call_hook('after_start'):
+        if (not self.processes and self.numprocesses > 0) or \
+                not self.call_hook('after_start'):
             logger.debug('Aborting startup')
             # stop streams too since we are bailing on this watcher completely
             yield self._stop(True)
